@@ -352,12 +352,15 @@ def run(ctx):
     ctx.cov["trusted_base"] = [
         "Lean 4.33.0 kernel; axioms within {propext, Classical.choice, Quot.sound}",
         "hand-written model Model/Lines.lean of util.write_continue / write_lines / write_output_file / _literal_lines, tied by differential correspondence",
-        "tools/extract_linecfg.py (AST scans: each emitter's line-length option and continuation marker, branches of _create_splicer, "
+        "tools/extract_linecfg.py (AST scans: each emitter's line-length option, addend and continuation marker, branches of _create_splicer, "
         "comma-list join sites of wrapf.py; option defaults read from a fresh LibraryNode)",
         "Python str.lstrip/isspace modelled on ASCII + U+0085/U+00A0 code points only",
     ]
     ctx.cov["rule"] = ("write_continue: corpus + every string over the directive/hint alphabet up to a length bound x line lengths "
-                       "+ seeded random lines; write_lines: seeded random item lists + short directive strings. A case is non-trivial "
+                       "+ seeded random lines; write_lines: seeded random item lists + short directive strings; emitters: every write_continue "
+                       "call of generated libraries under 6 line-length configurations run one after the other in one process, plus "
+                       "statement-shaped lines through each real emitter instance, judged against the language's option; sequences: "
+                       "the same line at 6 (linelen, indent) settings on two instances vs model session vs fresh process. A case is non-trivial "
                        "when the implementation broke the line (>= 2 physical lines); distinct = distinct request lines.")
     ctx.assumptions += [
         "the theorem is about the Lean model; the model is validated against util.py by differential testing on the generated inputs only",
@@ -984,8 +987,47 @@ def replay(path):
     w = _mixin()
     for f in d.get("failing", []):
         rp = f["replay"]
-        if "line" in rp:
+        if "sequence" in rp:
+            # the same line written repeatedly on two instances; the last call is the failing one
+            a, b = _mixin(), _mixin()
+            why = None
+            for k, (ll, ind) in enumerate(rp["sequence"]):
+                why = oracle_wc(a if k % 2 == 0 else b, ll, ind, rp["spaces"], rp["cont"], rp["line"])
+            print(f["key"], "->", why)
+        elif "emitter" in rp:
+            # earlier configurations of the same description in this process, then the failing one; the emitter instance of
+            # the last run writes the line
+            from tools import shroudrun
+            import re
+            why = None
+            with WcHook() as hook:
+                texts = []
+                for cfg in rp.get("runs_before_in_this_process", []):
+                    t = rp["yaml"]
+                    for k, v in cfg.items():
+                        t = re.sub(r"(%s:\s*)\d+" % k, lambda m: m.group(1) + str(v), t)
+                    texts.append(t)
+                for t in texts + [rp["yaml"]]:
+                    dd = common.scratch()
+                    try:
+                        shroudrun.run_inproc([shroudrun.write_yaml(dd, "replay.yaml", t)], dd)
+                    finally:
+                        common.rmtree(dd)
+                    calls, inst = hook.take()
+                for name, self_, ind, spaces, line, text in calls:
+                    if name == rp["emitter"] and line == rp["line"] and ind == rp["indent"]:
+                        why = judge_call(name, self_, ind, spaces, line, text)
+                        if why:
+                            break
+                if why is None and rp["emitter"] in inst:
+                    self_ = inst[rp["emitter"]]
+                    why = judge_call(rp["emitter"], self_, rp["indent"], rp["spaces"], rp["line"],
+                                     drive_emitter(self_, rp["indent"], rp["spaces"], rp["line"]))
+            print(f["key"], "->", why)
+        elif "line" in rp:
             print(f["key"], "->", oracle_wc(w, rp["linelen"], rp["indent"], rp["spaces"], rp["cont"], rp["line"]))
-        else:
+        elif "lines" in rp:
             print(f["key"], "->", real_wl(w, 72, 0, "    ", "&", rp["lines"]))
+        else:
+            print(f["key"], "->", f.get("what"))
     return 0
